@@ -472,7 +472,7 @@ func (h *handler) pickAction(ci *connInfo, cb string) gnet.Action {
 			h.rec.mu.Unlock()
 			return gnet.Shutdown
 		}
-		if h.cfg.scenario == "flood-then-shutdown" && cb == "traffic" && ci.traffic == 2 {
+		if h.cfg.scenario == "flood-then-shutdown" && cb == "traffic" && ci.traffic == 3 {
 			// the OnTraffic of the Wake that was queued behind the backlog (in the low-priority queue)
 			h.rec.mu.Lock()
 			h.rec.shutdown = true
@@ -1179,7 +1179,9 @@ func (h *handler) scenarioScript(ci *connInfo, cb string) {
 			h.doCall(ci, "next", -1, nil, false)
 		}
 	case "async-flood", "flood-then-shutdown":
-		if cb == "traffic" && ci.traffic == 1 {
+		// the loop is held inside the SECOND OnTraffic (the driver's "park" message, sent once the opening phase is
+		// over) until the driver has queued its requests
+		if cb == "traffic" && ci.traffic == 2 {
 			h.doCall(ci, "next", -1, nil, false)
 			select {
 			case h.inTraffic <- struct{}{}:
@@ -1187,7 +1189,7 @@ func (h *handler) scenarioScript(ci *connInfo, cb string) {
 			}
 			select {
 			case <-h.release:
-			case <-time.After(3 * time.Second):
+			case <-time.After(10 * time.Second):
 			}
 		} else if cb == "traffic" {
 			h.doCall(ci, "next", -1, nil, false)
